@@ -35,9 +35,12 @@ func init() {
 		for _, b := range []string{drv.BBolt, drv.Badger} {
 			eng.CursorSweep(run, b, true)
 		}
+		// multi-page collections: every bulk operation at every size must give the reference result on both backends
+		eng.BulkSweep(&eng.BulkConfig{Backends: []string{drv.BBolt, drv.Badger}, Sizes: sizesUpTo(map[string]int{"quick": 64, "thorough": 300}[tier]), Pads: []int{0}, IndexSets: [][]string{{"x", "xy"}}, Ops: eng.BulkOps()},
+			run, own("state", "callback", "apply", "err", "bulk-error", "rawkeys", "count", "indexquery"))
 		if tier == "thorough" {
 			eng.CursorSweep(run, drv.BadgerDisk, false)
 		}
-		return "lock-step twins: every transition of the breadth-first search (alphabets consistency, indexes, values; fixpoint) is executed on bbolt and on badger from the same state: same error (same sentinel, or an error in both), same documents in the same order for every collection, same stored key/value content; store-level cursor contract on both adapters: every committed subset of a 6-key universe (two keys with empty values) x every key subset reached by Set/Delete inside a write transaction before the cursor is created x 15 seek targets (present, absent between, before the first, after the last) x both directions: visited keys and values must be exactly the keys >= target ascending / <= target descending"
+		return "all 16 bulk operations at every collection size 0..64 (thorough 300) on both backends against the common reference; lock-step twins: every transition of the breadth-first search (alphabets consistency, indexes, values; fixpoint) is executed on bbolt and on badger from the same state: same error (same sentinel, or an error in both), same documents in the same order for every collection, same stored key/value content; store-level cursor contract on both adapters: every committed subset of a 6-key universe (two keys with empty values) x every key subset reached by Set/Delete inside a write transaction before the cursor is created x 15 seek targets (present, absent between, before the first, after the last) x both directions: visited keys and values must be exactly the keys >= target ascending / <= target descending"
 	})
 }
